@@ -4,6 +4,7 @@ import (
 	"context"
 	"fmt"
 	"io"
+	"net/url"
 	"time"
 
 	"verifharness/sup"
@@ -289,6 +290,12 @@ var sites = func() []site {
 		map[string]func(string) string{
 			"id-key":   func(s string) string { return "likes:" + s },
 			"id-table": func(s string) string { return s + ":1" },
+			// ids of generated edges, generated:<table>:<key>:<table>:<key>; the driver percent-decodes the parts
+			"generated from-key":     func(s string) string { return "generated:users:" + s + ":posts:2" },
+			"generated to-key":       func(s string) string { return "generated:users:1:posts:" + s },
+			"generated from-key#enc": func(s string) string { return "generated:users:" + url.QueryEscape(s) + ":posts:2" },
+			"generated to-key#enc":   func(s string) string { return "generated:users:1:posts:" + url.QueryEscape(s) },
+			"generated from-table":   func(s string) string { return "generated:" + url.QueryEscape(s) + ":1:posts:2" },
 		}, "users:1")...)
 	out = append(out, dbSites("esql", func(h *handler) gdbi.GraphDB { return h.edb })...)
 	return out
